@@ -390,12 +390,22 @@ impl Worker
 {
 	fn spawn() -> Worker
 	{
+		Self::spawn_with(None)
+	}
+
+	fn spawn_with(record_input: Option<&std::path::Path>) -> Worker
+	{
 		let exe = std::env::current_exe().expect("current_exe");
 		let n = WORKER_SEQ.fetch_add(1, Ordering::SeqCst);
 		let stderr_path = scratch_dir()
 			.join(format!("worker-{}-{}.stderr", std::process::id(), n));
 		let errf = std::fs::File::create(&stderr_path).expect("stderr file");
-		let mut child = Command::new(exe)
+		let mut cmd = Command::new(exe);
+		if let Some(p) = record_input
+		{
+			cmd.env("PV_RECORD_INPUT", p);
+		}
+		let mut child = cmd
 			.arg("worker")
 			.stdin(Stdio::piped())
 			.stdout(Stdio::piped())
@@ -734,7 +744,12 @@ fn run_single(
 	replay: bool,
 ) -> Vec<(String, Value)>
 {
-	let mut w = Worker::spawn();
+	let input_path = scratch_dir().join(format!(
+		"last-input-{}-{}.txt",
+		std::process::id(),
+		WORKER_SEQ.fetch_add(1, Ordering::SeqCst)
+	));
+	let mut w = Worker::spawn_with(Some(&input_path));
 	let req = json!({"id": id, "stream": sname, "tier": cfg.tier.name(), "seed": cfg.seed,
 		"idx": idx, "choices": choices, "replay": replay});
 	let mut res = Vec::new();
@@ -776,11 +791,13 @@ fn run_single(
 			{
 				let (sig, tail) = w.death_signature();
 				let sig = format!("{} [stream {}]", sig, sname);
-				res.push((sig, json!({"stderr_tail": tail, "crashed": true})));
+				let last = std::fs::read_to_string(&input_path).unwrap_or_default();
+				res.push((sig, json!({"stderr_tail": tail, "crashed": true, "last_input": last})));
 				break;
 			}
 		}
 	}
+	let _ = std::fs::remove_file(&input_path);
 	w.kill();
 	res
 }
